@@ -23,6 +23,7 @@ func init() {
 			"(R1, contradiction rule) in packages rsync and endpoint/remote no function returns a constant nil error from a point where an error produced by a call is known to be non-nil (guard `err != nil` dominates the return and err is not reassigned: SSA values are immutable) — exceptions are an explicit table with reasons; " +
 			"(R2) the error result of every call in the transmit family (the OperationTransmitter callback, Engine.transmitBlock/transmitData/Deltify, the Deltify closures, Receiver.Receive, Encoder.Encode, Decoder.Decode) is used, never discarded; " +
 			"(R3) Transmit's callback records Receiver.Receive's error in the captured variable and returns it, and after Deltify every path that continues or returns nil has tested that variable to be nil. " +
+			"(R2 addition) the error of a transmit-family call does not flow untested into a loop-carried variable (an `err = f()` in a loop with the test after the loop forgets earlier failures); " +
 			"Not decided: the second clause of the property (receiver obtained exactly the target data) — arithmetic over runtime data.",
 		Assumptions: []string{"errors are values of the predeclared type error; an error compared against nil is non-nil on the other edge"},
 		Run:         runC20,
